@@ -32,6 +32,10 @@ JOBS = [
         cases=[('p%d' % k, 'in_prec == %d' % k) for k in range(0, 12)] + [('p_out', 'in_prec < 0 || in_prec > 11')]),
     Job('OSGB.GridReference_rev', 'OSGB::GridReference', ['C18', 'C13', 'C14'], select=r'^const', cname='OSGB_GridReference_rev',
         unwind=13, strcap=64, timeout=300, replace=[LOOKUP], description='OSGB decoder'),
+    # ---- MGRS (C05)
+    Job('MGRS.LatitudeBand', 'MGRS::LatitudeBand', ['C05', 'C04', 'C14'], description='latitude band number'),
+    Job('MGRS.CheckCoords', 'MGRS::CheckCoords', ['C05', 'C13', 'C14'], timeout=300, description='MGRS coordinate ranges and hemisphere folding'),
+    Job('MGRS.UTMRow', 'MGRS::UTMRow', ['C05', 'C14'], description='row/band compatibility (exhaustive over all 3200 argument triples)'),
 ]
 
 
@@ -51,11 +55,19 @@ NOT_BUILT = 'in reach of the technique (DESIGN.md section 5) but its contracts a
 NOT_APPLICABLE = {
     'C02': NUMERIC, 'C03': NUMERIC, 'C06': NUMERIC, 'C11': NUMERIC, 'C15': NUMERIC,
     'C17': NUMERIC + '; NearestNeighbor is a C++ template over user types that neither the C extraction nor the CBMC C++ front end can take',
-    'C01': NOT_BUILT, 'C04': NOT_BUILT, 'C05': NOT_BUILT, 'C07': NOT_BUILT, 'C08': NOT_BUILT, 'C09': NOT_BUILT, 'C10': NOT_BUILT,
+    'C01': NOT_BUILT, 'C04': NOT_BUILT, 'C07': NOT_BUILT, 'C08': NOT_BUILT, 'C09': NOT_BUILT, 'C10': NOT_BUILT,
     'C12': NOT_BUILT, 'C13': NOT_BUILT, 'C14': NOT_BUILT, 'C16': NOT_BUILT, 'C19': NOT_BUILT, 'C20': NOT_BUILT,
 }
 
 PROPS = {
+    'C05': dict(
+        level='proof',
+        level_text='MGRS: structure/alphabet/tile containment of the encoder, acceptance conditions and tile-level values of the decoder, '
+                   'row/band compatibility table, coordinate range checks, throw => outputs unchanged, memory safety: all obligations discharged by cbmc.',
+        level_note='Trusted: as C18. Digit VALUES (truncation of x*1e6) and the band letter vs the TRUE latitude (needs the projection) are not decided.',
+        design_ref='DESIGN.md section 5, C05',
+        not_decided=['digit values equal truncation / prefix property', 'band letter agrees with the true latitude within 5 nm (numeric)'],
+    ),
     'C18': dict(
         level='proof',
         level_text='Every obligation generated from the contracts of the grid-code encoders/decoders (alphabet membership, cell containment '
